@@ -167,14 +167,14 @@ theorem found_claims {ns : Bool} {R : Path} {dc : List Name} {x : Name} {g : Pat
     (hdc : ∀ c ∈ dc, isIdent c = true) (hx : isIdent x = true) (hxi : x ≠ sInit)
     (hnb : noBaseBelow o R (x :: dc.reverse) = true) (hnbs : o.isBase (R ++ dc ++ [x ++ sStubs]) = false)
     (hs : scanDir fs ns (R ++ dc) x dc.length = .found g) :
-    fs.isFile g = true ∧ crawlUp fs o g = .some (dc ++ [x]) R := by
+    fs.isFile g = true ∧ crawlUp fs o g = .some (dc ++ [x]) R ∧ g ∈ pkgFiles (R ++ dc) x ++ modFiles (R ++ dc) x := by
   obtain ⟨hv, hmem, hfile⟩ := scanDir_found fs hs
   simp only [noBaseBelow, Bool.and_eq_true, Bool.not_eq_true'] at hnb
   have hv' : verifyFrom fs (dc.reverse ++ R.reverse) dc.reverse.length = true := by simpa using hv
   have hchain := chainOK_of_verify fs o dc.reverse (by simpa using hdc) hnb.2 hv'
   have hbd := (chain_up fs o hR dc.reverse hchain).1
   simp only [List.reverse_reverse] at hbd
-  refine ⟨hfile, crawl_candidate fs o hbd hx hxi ?_ hnbs hmem hfile⟩
+  refine ⟨hfile, crawl_candidate fs o hbd hx hxi ?_ hnbs hmem hfile, hmem⟩
   simpa using hnb.1
 
 theorem getLast?_snoc (dc : List Name) (x : Name) : (dc ++ [x]).getLast? = some x := by simp
@@ -189,7 +189,7 @@ theorem find_claims_nons (wf : fs.WF) (hns : o.ns = false) {roots : List Path} {
     (hgood : ∀ R ∈ roots, crawlUpDir fs o R = .some [] R)
     (hinner : ∀ R ∈ roots, noBaseBelow o R (x :: dc.reverse) = true ∧ o.isBase (R ++ dc ++ [x ++ sStubs]) = false) :
     ∃ g R, findModule fs o.ns roots (dc ++ [x]) = some g ∧ R ∈ roots ∧ fs.isFile g = true ∧
-      crawlUp fs o g = .some (dc ++ [x]) R := by
+      crawlUp fs o g = .some (dc ++ [x]) R ∧ g ∈ pkgFiles (R ++ dc) x ++ modFiles (R ++ dc) x := by
   have hcand := base_candidate fs wf hdc hx hsp hf hB
   have hpar := crawl_parent fs o hx hxi hsp hf hc
   have hver : verifyFrom fs (B ++ dc).reverse dc.length = true := by
@@ -206,8 +206,8 @@ theorem find_claims_nons (wf : fs.WF) (hns : o.ns = false) {roots : List Path} {
     obtain ⟨hR, _, _, hbd⟩ := (mem_candidates fs).mp hcm
     have hbd' : bd = R ++ dc := by simpa using hbd
     subst hbd'
-    obtain ⟨hfile, hcr⟩ := found_claims fs o (hgood R hR) hdc hx hxi (hinner R hR).1 (hinner R hR).2 hfound
-    exact ⟨g, R, hfm, hR, hfile, hcr⟩
+    obtain ⟨hfile, hcr, hmem⟩ := found_claims fs o (hgood R hR) hdc hx hxi (hinner R hR).1 (hinner R hR).2 hfound
+    exact ⟨g, R, hfm, hR, hfile, hcr, hmem⟩
   · rw [hns] at hns'; cases hns'
 
 /-! ### namespace mode -/
@@ -398,7 +398,7 @@ theorem find_claims_ns (wf : fs.WF) (hns : o.ns = true) {roots : List Path} {B :
     (hexp : o.epb = true → ∀ R ∈ roots, o.isBase R = true)
     (hbare : verifyFrom fs (B ++ dc).reverse dc.length = true ∨ ∀ R ∈ roots, nsDir fs true (R ++ dc) x = []) :
     ∃ g R, findModule fs o.ns roots (dc ++ [x]) = some g ∧ R ∈ roots ∧ fs.isFile g = true ∧
-      crawlUp fs o g = .some (dc ++ [x]) R := by
+      crawlUp fs o g = .some (dc ++ [x]) R ∧ g ∈ pkgFiles (R ++ dc) x ++ modFiles (R ++ dc) x := by
   have hcand := base_candidate fs wf hdc hx hsp hf hB
   have hpar := crawl_parent fs o hx hxi hsp hf hc
   have hlen : (dc ++ [x]).length - 1 = dc.length := by simp
@@ -414,8 +414,8 @@ theorem find_claims_ns (wf : fs.WF) (hns : o.ns = true) {roots : List Path} {B :
       obtain ⟨hR, _, _, hbd⟩ := (mem_candidates fs).mp hcm
       have hbd' : bd = R ++ dc := by simpa using hbd
       subst hbd'
-      obtain ⟨hfile, hcr⟩ := found_claims fs o (hgood R hR) hdc hx hxi (hinner R hR).1 (hinner R hR).2 hfound
-      exact ⟨g, R, hfm, hR, hfile, hcr⟩
+      obtain ⟨hfile, hcr, hmem⟩ := found_claims fs o (hgood R hR) hdc hx hxi (hinner R hR).1 (hinner R hR).2 hfound
+      exact ⟨g, R, hfm, hR, hfile, hcr, hmem⟩
     · obtain ⟨l, hl⟩ := hall _ hcand
       rw [hg0] at hl; cases hl
   · have hver' : verifyFrom fs (B ++ dc).reverse dc.length = false := by simpa using hver
@@ -435,8 +435,8 @@ theorem find_claims_ns (wf : fs.WF) (hns : o.ns = true) {roots : List Path} {B :
       obtain ⟨hR, _, _, hbd⟩ := (mem_candidates fs).mp hcm
       have hbd' : bd = R ++ dc := by simpa using hbd
       subst hbd'
-      obtain ⟨hfile, hcr⟩ := found_claims fs o (hgood R hR) hdc hx hxi (hinner R hR).1 (hinner R hR).2 hfound
-      exact ⟨g, R, hfm, hR, hfile, hcr⟩
+      obtain ⟨hfile, hcr, hmem⟩ := found_claims fs o (hgood R hR) hdc hx hxi (hinner R hR).1 (hinner R hR).2 hfound
+      exact ⟨g, R, hfm, hR, hfile, hcr, hmem⟩
     · simp only [List.nil_append] at hmem hmax
       obtain ⟨c, hcm, l', hs', hgl', hlvl⟩ := (mem_missesOf fs).mp hmem
       obtain ⟨bd, R⟩ := c
@@ -478,6 +478,6 @@ theorem find_claims_ns (wf : fs.WF) (hns : o.ns = true) {roots : List Path} {B :
         have hbd := (chain_up fs o (hgood R hR) _ hchain).1
         simp only [List.reverse_reverse] at hbd
         have hcr := crawl_candidate fs o hbd hx hxi (by simpa using hinn.1.1) hinn.2 hgfile.1 hgfile.2
-        exact ⟨g, R, hfm, hR, hgfile.2, hcr⟩
+        exact ⟨g, R, hfm, hR, hgfile.2, hcr, hgfile.1⟩
 
 end Layout
